@@ -194,7 +194,8 @@ Section Model.
   | CEnvFrom (v : bytes) | CEnvFromFormat (name address : bytes)
   | CReplyTo (v : bytes) | CReplyToFormat (name address : bytes)
   | CGenSet (h : bytes) (vals : list bytes)          (* SetAddrHeader *)
-  | CGenIgn (h : bytes) (vals : list bytes).         (* SetAddrHeaderIgnoreInvalid *)
+  | CGenIgn (h : bytes) (vals : list bytes)          (* SetAddrHeaderIgnoreInvalid *)
+  | CReset.                                          (* Msg.Reset: m.addrHeader = make(map...) — every key incl. EnvelopeFrom is gone *)
 
   Definition apply_call (m : amap) (c : call) : amap * bool :=
     match c with
@@ -211,6 +212,7 @@ Section Model.
     | CReplyToFormat n a => set_addr_header m hdr_reply_to [format_addr n a]
     | CGenSet h vals => set_addr_header m h vals
     | CGenIgn h vals => set_addr_header_ign m h vals
+    | CReset => ([], true)
     end.
 
   (* every string a call hands to the address parser *)
@@ -221,6 +223,7 @@ Section Model.
     | CAdd _ v | CFrom v | CEnvFrom v | CReplyTo v => [v]
     | CAddFormat _ n a | CFromFormat n a | CEnvFromFormat n a | CReplyToFormat n a => [format_addr n a]
     | CFromString _ str => from_string_pieces str
+    | CReset => []
     end.
 
   Definition run (calls : list call) (m : amap) : amap :=
@@ -298,6 +301,7 @@ Definition call_key (c : call) : bytes :=
   | CEnvFrom _ | CEnvFromFormat _ _ => hdr_envelope_from
   | CReplyTo _ | CReplyToFormat _ _ => hdr_reply_to
   | CGenSet h _ | CGenIgn h _ => h
+  | CReset => []          (* no single key: Reset is treated apart *)
   end.
 
 (* ---- an independent reader of a header block: the names of the fields it contains ----
